@@ -22,6 +22,7 @@ import (
 	"os"
 	"sort"
 	"strings"
+	"time"
 
 	"github.com/ethereum/go-ethereum/common"
 	"github.com/ethereum/go-ethereum/crypto"
@@ -882,7 +883,15 @@ func main() {
 	}
 	defer rig.Close()
 	w := &world{run: run, rig: rig, empty: rig.PG.Store().Snapshot()}
-	exec := func(sc *Scenario) { w.scenarioNo++; w.runScenario(sc) }
+	t0 := time.Now()
+	exec := func(sc *Scenario) {
+		if rig.Broken || (!run.Thorough && time.Since(t0) > 150*time.Second) {
+			run.Dist["skipped:rig-broken-or-time-budget"]++
+			return
+		}
+		w.scenarioNo++
+		w.runScenario(sc)
+	}
 	if run.Replay != "" {
 		sc, err := loadReplay(run.Replay)
 		if err != nil {
@@ -899,7 +908,7 @@ func main() {
 	for _, sc := range forcedScenarios() {
 		exec(sc)
 	}
-	n := run.Scale(70, 2500)
+	n := run.Scale(50, 800)
 	for i := 0; i < n; i++ {
 		exec(genScenario(run.RNG.Fork(), i%3 == 0))
 	}
